@@ -75,6 +75,11 @@ def _ops(kind, labels):
         cons = st.tuples(st.just("constraint"), st.sampled_from(RELS), cpoly,
                          st.sampled_from([0.5, 1, 2]), st.booleans())
         ops += [cons, cons, cons]
+        # update() with a constrained model of the same type: the library merges the recorded constraints, so the
+        # ancillas that come along must be counted too (generated only while the target has no ancillas of its own,
+        # otherwise equal names of different origin would be conflated by the update itself)
+        ops.append(st.tuples(st.just("update_constrained"), st.sampled_from(RELS), cpoly,
+                             st.sampled_from([0.5, 1, 2]), st.booleans()))
     return st.one_of(ops)
 
 
@@ -321,6 +326,19 @@ def _run(spec, rec, qv):
             lib(f, what="ipow")
         elif name == "update":
             lib(M.update, gen.terms_dict(op[1]), what="update")
+        elif name == "update_constrained":
+            rel, terms, lam, log_trick = op[1], op[2], op[3], op[4]
+            if names_seen or M.num_ancillas or any(_is_anc(l) for l in M.variables):
+                rec.add("skipped")
+                continue
+            G = cls()
+            kwargs = {"lam": lam}
+            if rel != "eq":
+                kwargs["log_trick"] = log_trick
+            lib(getattr(G, "add_constraint_%s_zero" % rel), gen.terms_dict(terms), what="constraint_" + rel, **kwargs)
+            lib(M.update, G, what="update(model with constraints)")
+            if any(_is_anc(l) for l in G.variables):
+                flags.add("update_brought_ancillas")
         elif name == "clear":
             lib(M.clear, what="clear")
             names_seen = set()
@@ -363,7 +381,8 @@ def _run(spec, rec, qv):
             used = {l for k in F for l in k if _is_anc(l)}
             reused = used & names_seen
             if reused:
-                how = "after_derive" if flags & {"derived_subs", "derived_round"} else ("after_product" if after_product else "plain")
+                how = "after_derive" if flags & {"derived_subs", "derived_round"} else ("after_product" if after_product else (
+                    "after_update_with_constrained_model" if "update_brought_ancillas" in flags else "plain"))
                 raise Violation("ancilla_name_reused/%s" % how,
                                 "constraint %s reuses %r (seen before: %r); model=%r" % (rel, sorted(reused), sorted(names_seen), dict(M)))
             if after_product:
@@ -418,13 +437,15 @@ def _run(spec, rec, qv):
             raise Violation("probe_constraint_without_ancilla", "F=%r" % (F,))
         reused = used & names_seen
         if reused:
-            how = "after_derive" if flags & {"derived_subs", "derived_round"} else ("after_product" if after_product else "plain")
+            how = "after_derive" if flags & {"derived_subs", "derived_round"} else ("after_product" if after_product else (
+                "after_update_with_constrained_model" if "update_brought_ancillas" in flags else "plain"))
             raise Violation("ancilla_name_reused/%s" % how,
                             "probe constraint reuses %r (seen before: %r); num_ancillas=%r model=%r" %
                             (sorted(reused), sorted(names_seen), M.num_ancillas, dict(M)))
         check_bookkeeping(M, kind, "probe_constraint")
 
-    interesting = flags & {"zero_to_new_label", "repeated_label", "cancellation", "constraint_after_product"}
+    interesting = flags & {"zero_to_new_label", "repeated_label", "cancellation", "constraint_after_product",
+                           "update_brought_ancillas"}
     nontrivial = bool(interesting)
     rec.case(spec, nontrivial, sorted(classes | flags))
 
